@@ -18,6 +18,7 @@ var c01XOps = []string{
 	"get-accessories", "put-value", "put-ev", "verify-finish-forged", "cipher-probe",
 	"get-characteristics", "post-resource", "pairings-add", "pairings-remove-L", "verify-start",
 	"verify-finish-zero-key", "setup-start", "setup-verify-wrong-code", "reopen", "take-over-L-port",
+	"setup-key-exchange-universal-signature",
 }
 
 // composite adversary operations: a fresh pair-verify start, a correctly sealed finish naming a stored
@@ -329,6 +330,23 @@ func (r *c01Run) step(ev string) bool {
 	case "setup-verify-wrong-code":
 		cl := refctl.NewSRPClient(refctl.Seed32("c01-a"))
 		do("POST", "/pair-setup", refctl.CTPairing, refctl.TLVEncode(refctl.T(refctl.TagState, []byte{3}), refctl.T(refctl.TagPublicKey, cl.A), refctl.T(refctl.TagProof, pat(64, 1))))
+	default:
+		// "any:<METHOD>:<target>": a protected request with an arbitrary HTTP method (the handlers are registered for
+		// a path, not for a method)
+		parts := strings.SplitN(op, ":", 3)
+		if len(parts) != 3 || parts[0] != "any" {
+			r.c.Infra("unknown symbol " + ev)
+			return false
+		}
+		path, ctype, body := c01Target(parts[2], aid, iid, !r.on)
+		m, evs, err := do(parts[1], path, ctype, body)
+		if !r.refused(who, op, m, evs, err) {
+			return false
+		}
+	case "setup-key-exchange-universal-signature":
+		// a key exchange sealed under the all-zero key, presenting the neutral group element as long-term key and the
+		// signature that key accepts for every message
+		do("POST", "/pair-setup", refctl.CTPairing, refctl.M5Sealed(make([]byte, 32), refctl.UniversalM5Sub(idX.ID)))
 	case "cipher-probe":
 		shared := refctl.Seed32("guess")
 		if cn.last != nil {
@@ -479,7 +497,42 @@ func (r *c01Run) finalProbes() {
 	}
 }
 
+var c01Methods = []string{"GET", "PUT", "POST", "DELETE", "PATCH", "OPTIONS", "TRACE", "get", "FOO"}
+var c01Targets = []string{"accessories", "characteristics-read", "characteristics-write", "characteristics-subscribe", "pairings-add", "pairings-remove-L", "resource"}
+
+func c01Target(name string, aid, iid uint64, v bool) (path, ctype string, body []byte) {
+	switch name {
+	case "accessories":
+		return "/accessories", "", nil
+	case "characteristics-read":
+		return fmt.Sprintf("/characteristics?id=%d.%d,1.2", aid, iid), "", nil
+	case "characteristics-write":
+		return "/characteristics", refctl.CTJSON, []byte(fmt.Sprintf(`{"characteristics":[{"aid":%d,"iid":%d,"value":%v}]}`, aid, iid, v))
+	case "characteristics-subscribe":
+		return "/characteristics", refctl.CTJSON, []byte(fmt.Sprintf(`{"characteristics":[{"aid":%d,"iid":%d,"ev":true}]}`, aid, iid))
+	case "pairings-add":
+		return "/pairings", refctl.CTPairing, refctl.TLVEncode(refctl.T(refctl.TagState, []byte{1}), refctl.T(refctl.TagMethod, []byte{3}), refctl.T(refctl.TagIdentifier, []byte(idX.ID)), refctl.T(refctl.TagPublicKey, idX.Pub), refctl.T(refctl.TagPermission, []byte{1}))
+	case "pairings-remove-L":
+		return "/pairings", refctl.CTPairing, refctl.TLVEncode(refctl.T(refctl.TagState, []byte{1}), refctl.T(refctl.TagMethod, []byte{4}), refctl.T(refctl.TagIdentifier, []byte(idL.ID)))
+	}
+	return "/resource", refctl.CTJSON, []byte(`{"resource-type":"image","image-width":2,"image-height":2}`)
+}
+
 func c01Run1(c *fw.Ctx) {
+	// every protected target × every HTTP method (9, including ones HAP does not use, a lower-case and an unknown
+	// one), from the initial state and after L has verified and subscribed, followed by a change made by the application
+	n := 0
+	for _, t := range c01Targets {
+		for _, m := range c01Methods {
+			n++
+			if n%c.NShards != c.Shard {
+				continue
+			}
+			sym := "X1:any:" + m + ":" + t
+			c01Exec(c, []string{sym, "app:set"})
+			c01Exec(c, []string{"L:verify", "L:subscribe", sym, "app:set", "X1:" + "any:" + m + ":accessories"})
+		}
+	}
 	{
 		interfRun(c, "C01") // statement-level interleavings of handlers / connection users (subprocess)
 	}
@@ -549,7 +602,7 @@ func init() {
 	fw.Register(&fw.Check{
 		ID:    "C01",
 		Level: "model_checking",
-		Rule:  "every history of length 3 (quick) / 4 (thorough) over 29 symbols, in thorough also every history of length 3 over 39 symbols (second adversary connection with every operation), and every history of length 2 / 3 from two non-initial states (L verified and subscribed; the same with adversary connections already open and a value changed): two adversary connections X1, X2 (plaintext GET /accessories, GET /characteristics, PUT value, PUT ev, POST /resource, POST /pairings add / remove, pair-verify start, forged and zero-key finish, pair-setup start and wrong-code verify, a request sealed under keys derived from its own exchange, a fresh exchange finished with a correctly sealed message naming L or the accessory itself under the adversary's signature and at once followed by ciphertext under that exchange's keys, reopen, reconnect from exactly the source address and port the legitimate controller used), a legitimate controller L (verify, changing write, subscribe, close, and a pair-verify whose finish request is split with Expect: 100-continue so that its handler overlaps with the events that follow) and the application (set value), against the real transport (with /resource registered) over TCP, fresh system per history. After EVERY event: each protected operation on a connection the model holds as unverified is refused (status not 2xx, body discloses no attribute, value or canary — checked as plaintext and after decryption under every key the adversary holds), no EVENT precedes a barrier request on any adversary connection, characteristic values / every application callback counter / stored pairings are exactly what the model says; at the end of every history L (if verified) must still be served and every live adversary connection must still answer in plaintext, refuse, and not serve ciphertext under its own exchange keys. states = histories executed (each judges all its prefixes) Plus, in a subprocess built with a scheduling point before EVERY statement of hc's packages (textual insertion through go build -overlay): every interleaving with at most 1 (thorough 2) preemptions of pairs of handlers / users of connections on one accessory (a verified and a newly accepted unverified connection; two writers, a writer and the reader of one encrypted connection, writers on two connections) — each side must observe exactly what it observes when the two run one after the other.",
+		Rule:  "every history of length 3 (quick) / 4 (thorough) over 30 symbols, in thorough also every history of length 3 over 41 symbols (second adversary connection with every operation), and every history of length 2 / 3 from two non-initial states (L verified and subscribed; the same with adversary connections already open and a value changed): two adversary connections X1, X2 (plaintext GET /accessories, GET /characteristics, PUT value, PUT ev, POST /resource, POST /pairings add / remove, pair-verify start, forged and zero-key finish, pair-setup start, wrong-code verify and a key exchange under the all-zero key with the neutral group element as long-term key, a request sealed under keys derived from its own exchange, a fresh exchange finished with a correctly sealed message naming L or the accessory itself under the adversary's signature and at once followed by ciphertext under that exchange's keys, reopen, reconnect from exactly the source address and port the legitimate controller used; and every protected target — attribute database, characteristic read / write / subscribe, pairing add / remove, resource — with each of 9 HTTP methods including DELETE, PATCH, OPTIONS, TRACE, a lower-case and an unknown one), a legitimate controller L (verify, changing write, subscribe, close, and a pair-verify whose finish request is split with Expect: 100-continue so that its handler overlaps with the events that follow) and the application (set value), against the real transport (with /resource registered) over TCP, fresh system per history. After EVERY event: each protected operation on a connection the model holds as unverified is refused (status not 2xx, body discloses no attribute, value or canary — checked as plaintext and after decryption under every key the adversary holds), no EVENT precedes a barrier request on any adversary connection, characteristic values / every application callback counter / stored pairings are exactly what the model says; at the end of every history L (if verified) must still be served and every live adversary connection must still answer in plaintext, refuse, and not serve ciphertext under its own exchange keys. states = histories executed (each judges all its prefixes) Plus, in a subprocess built with a scheduling point before EVERY statement of hc's packages (textual insertion through go build -overlay): every interleaving with at most 1 (thorough 2) preemptions of pairs of handlers / users of connections on one accessory (a verified and a newly accepted unverified connection; two writers, a writer and the reader of one encrypted connection, writers on two connections) — each side must observe exactly what it observes when the two run one after the other.",
 		Run:   c01Run1,
 		Replay: func(c *fw.Ctx, raw json.RawMessage) {
 			var cas c01Case
